@@ -67,6 +67,10 @@ Inductive expr :=
 | ECellLoad (p idx : expr) (isptr : bool)   (* p->field / p[idx] on the cell heap; a zeroed cell read at pointer type is the null pointer *)
 | ECellStore (p idx e : expr)          (* p->field = e / p[idx] = e *)
 | ECellStep (x : string) (k : Z) (post : bool)   (* p++ / ++p / p-- on a pointer into an array of pointers *)
+| ECellStepF (p idx : expr) (k : Z) (post : bool)   (* p->f++ / ++p->f on an int field *)
+| EFieldAddr (p idx : expr)            (* &p->f: a pointer to that cell *)
+| EMallocCells (n : expr)              (* malloc(n) used for an array of pointers: n / 8 cells of unspecified content, or NULL (oracle) *)
+| ERealloc (p n : expr)                (* realloc(p, n) of an array of pointers: a fresh block with the old cells (as many as fit), the old block released; or NULL and the old block untouched *)
 | EPtrEq (a b : expr)                  (* a == b on pointers *)
 | ELeaf (f : string) (a : expr)        (* a call of one of the pure leaf functions translated by c2gallina (Gen/Leaf.v) *)
 | EStrcmp (p q : expr)                 (* strcmp on two NUL-terminated strings of the memory: -1 / 0 / 1 (libc promises only the sign) *)
@@ -696,6 +700,103 @@ Fixpoint eval (e : expr) (s : state) : option (val * state) :=
         | _ => None
         end
       | None => None
+      end
+    | _ => None
+    end
+  | ECellStepF p idx k post =>
+    match eval p s with
+    | Some (VCell b i, s1) =>
+      match eval idx s1 with
+      | Some (VInt j, s2) =>
+        match heap_of s2 with
+        | Some h =>
+          match cell_get h b (i + j) with
+          | Some (VInt z) =>
+            match chk (z + k) with
+            | Some (VInt z') =>
+              match cell_set h b (i + j) (VInt z') with
+              | Some h' => match set_var cells_var (VHeap h') s2 with Some s3 => Some (VInt (if post then z else z'), s3) | None => None end
+              | None => None
+              end
+            | _ => None
+            end
+          | _ => None
+          end
+        | None => None
+        end
+      | _ => None
+      end
+    | _ => None
+    end
+  | EFieldAddr p idx =>
+    match eval p s with
+    | Some (VCell b i, s1) =>
+      match eval idx s1 with
+      | Some (VInt j, s2) =>
+        match heap_of s2 with
+        | Some h => match cell_get h b (i + j) with Some _ => Some (VCell b (i + j), s2) | None => None end
+        | None => None
+        end
+      | _ => None
+      end
+    | _ => None
+    end
+  | EMallocCells a =>
+    match eval a s with
+    | Some (VInt n, s1) =>
+      match heap_of s1 with
+      | Some h =>
+        if (0 <=? n) && (n mod 8 =? 0) then
+          let fresh := VCell (List.length h) 0 in
+          let grown := h ++ [Some (repeat VUndef (Z.to_nat (n / 8)))] in
+          match lookup fail_var (vars s1) with
+          | Some (VInt k) =>
+            if k =? 0 then match set_var fail_var (VInt (-1)) s1 with Some s2 => Some (VNull, s2) | None => None end
+            else
+              match set_var fail_var (VInt (if 0 <? k then k - 1 else k)) s1 with
+              | Some s2 => match set_var cells_var (VHeap grown) s2 with Some s3 => Some (fresh, s3) | None => None end
+              | None => None
+              end
+          | _ => None
+          end
+        else None
+      | None => None
+      end
+    | _ => None
+    end
+  | ERealloc p a =>
+    match eval p s with
+    | Some (VCell b i, s1) =>
+      match eval a s1 with
+      | Some (VInt n, s2) =>
+        match heap_of s2 with
+        | Some h =>
+          match nth_error h b with
+          | Some (Some blk) =>
+            if (i =? 0) && (0 <=? n) && (n mod 8 =? 0) then
+              let cnt := Z.to_nat (n / 8) in
+              let fresh := VCell (List.length h) 0 in
+              let newblk := firstn cnt blk ++ repeat VUndef (cnt - List.length blk) in
+              match lookup fail_var (vars s2) with
+              | Some (VInt k) =>
+                if k =? 0 then match set_var fail_var (VInt (-1)) s2 with Some s3 => Some (VNull, s3) | None => None end
+                else
+                  match set_nth_v b None h with
+                  | Some h1 =>
+                    match set_var fail_var (VInt (if 0 <? k then k - 1 else k)) s2 with
+                    | Some s3 => match set_var cells_var (VHeap (h1 ++ [Some newblk])) s3 with Some s4 => Some (fresh, s4) | None => None end
+                    | None => None
+                    end
+                  | None => None
+                  end
+              | _ => None
+              end
+            else None
+          | _ => None
+          end
+        | None => None
+        end
+      | _ => None
       end
     | _ => None
     end
